@@ -48,6 +48,9 @@ CHECKS = {
  "C20": ("model_checking", "TLA+ spec Session.tla: self-composition invariant ModeNonInterference (MC_Session); four-lane trace validation (Trace_C20): each run executed in the four callback modes, per-iteration checkpoint texts, stop decisions, returned checkpoint, exit status, bytes printed per rank and the written file compared by TLC",
          "Equality across lanes is byte equality of checkpoint texts; summary printing is exercised on every channel-count / weight pattern incl. disabled and minimal channels, zero / constant / non-finite integrands.",
          "TLC; MPI shim; stdout capture; ASan not used (exceptions and aborts are caught as rejected traces)", "5/C20"),
+ "C05": ("model_checking", "TLA+ spec Format.tla (writers / readers of the checkpoint text over token streams, transcribed from the serialize members and stream constructors): TLC proves Read(Write(c)) = c on 369 abstract checkpoints (MC_Format); trace validation (Trace_C05): token shape of every real checkpoint text = shape of the spec's writer for the same structure, stream good, all fields and generators bit-equal after reading back",
+         "Structure (field order, name line, counts, conditional first grid / weights, separators) is decided by the specification; bit fidelity of the numeric fields is checked by the driver over value classes for three numeric types and 9 engines.",
+         "TLC; decimal conversion (max_digits10 + operator>>) is checked, not derived; engine operator==", "5/C05"),
 }
 
 NOT_YET = {}
